@@ -30,6 +30,88 @@ class State:
         return State(dict(self.regs), self.mem, self.trace, self.extents, self.stores)
 
 
+class SymMem:
+    """state memory as a persistent list of layers over a base array:  store(addr, nbytes, value)  |  havoc(event)
+    Loads walk the layers with cheap aliasing queries (read-over-write elimination) so that terms stay small; only when
+    aliasing is undecided does a load fall back to the full array term."""
+    __slots__ = ('parent', 'kind', 'payload', '_z3')
+
+    def __init__(self, parent=None, kind='base', payload=None):
+        self.parent = parent; self.kind = kind; self.payload = payload; self._z3 = None
+
+    @staticmethod
+    def base(arr):
+        return SymMem(None, 'base', arr)
+
+    def store(self, a, n, v):
+        return SymMem(self, 'store', (a, n, v))
+
+    def havoc(self, ev):
+        return SymMem(self, 'havoc', ev)
+
+    def z3(self):
+        if self._z3 is None:
+            if self.kind == 'base':
+                self._z3 = self.payload
+            elif self.kind == 'store':
+                a, n, v = self.payload
+                m = self.parent.z3()
+                for i in range(n):
+                    m = z3.Store(m, a + i, (v / (1 << (8 * i))) % 256)
+                self._z3 = m
+            else:
+                self._z3 = self.payload.havoc_z3(self.parent.z3())
+        return self._z3
+
+
+def as_mem(m):
+    return m if isinstance(m, SymMem) else SymMem.base(m)
+
+
+def _compose(ctx, arr, a, n):
+    v = None
+    for i in range(n):
+        b = z3.Select(arr, a + i)
+        ctx.facts += [b >= 0, b <= 255]             # invariant: memory cells hold bytes (stores reduce mod 256)
+        isa.set_maybits(b, 0xFF)
+        v = b if v is None else v + (1 << (8 * i)) * b
+    return v
+
+
+def load_word(ctx, mem, a, n, implied):
+    """n-byte little-endian load at address a (zero-extended)"""
+    if not isinstance(mem, SymMem):
+        return _compose(ctx, mem, a, n)
+    a_s = z3.simplify(a)
+    m = mem
+    while m.kind != 'base':
+        if m.kind == 'store':
+            ai, ni, vi = m.payload
+            if ni == n and z3.eq(z3.simplify(ai), a_s):
+                if n == ctx.W:
+                    return vi                      # engine values are reduced words
+                mask = (1 << (8 * n)) - 1
+                mv = isa.maybits(vi, ctx.M - 1)
+                if mv <= mask:
+                    return vi                      # the stored value fits: no truncation
+                r = vi % (1 << (8 * n))
+                isa.set_maybits(r, mv & mask)
+                return r
+            if implied(z3.Or(ai + ni <= a, a + n <= ai)):
+                m = m.parent; continue
+            if ni == n and implied(ai == a):
+                return vi if n == ctx.W else vi % (1 << (8 * n))
+            break
+        else:
+            ev = m.payload
+            if implied(ev.protects(a, n)):
+                m = m.parent; continue
+            if implied(ev.exposes(a, n)):
+                return _compose(ctx, ev.fresh_mem, a, n)
+            break
+    return _compose(ctx, m.z3(), a, n)
+
+
 @dc.dataclass
 class Leaf:
     cond: list
@@ -152,10 +234,9 @@ class Engine:
         alts = [self._in(a, n, lo, hi) for lo, hi in self.ctx.const_extents]
         return z3.Or(*alts) if alts else z3.BoolVal(False)
 
-    def byte_at(self, mem, a):
-        b = z3.Select(mem, a)
-        self.ctx.facts += [b >= 0, b <= 255]        # invariant: memory cells hold bytes (stores reduce mod 256)
-        return b
+    def implied_under(self, cond):
+        pre = self.ctx.all_pre() + list(cond)
+        return lambda f: smt.prove(pre, f, timeout_ms=3000).verdict == smt.PROVED
 
     def ld(self, st, cond, a, n, section, what):
         c = self.ctx
@@ -165,18 +246,11 @@ class Engine:
         else:
             self.safety.append((list(cond), f'load {n} const bytes: {what}', self.safe_const(a, n)))
             mem = c.cmem
-        v = self.byte_at(mem, a)                      # ASSUME: little endian; byte loads zero-extend
-        for i in range(1, n):
-            v = v + (1 << (8 * i)) * self.byte_at(mem, a + i)
-        return v
+        return load_word(c, mem, a, n, self.implied_under(cond))       # ASSUME: little endian; byte loads zero-extend
 
     def store(self, st, cond, a, n, v, what):
-        c = self.ctx
         self.safety.append((list(cond), f'store {n} state bytes: {what}', self.safe_state(st, a, n)))
-        mem = st.mem
-        for i in range(n):
-            mem = z3.Store(mem, a + i, (v / (1 << (8 * i))) % 256)
-        st.mem = mem
+        st.mem = as_mem(st.mem).store(a, n, v)
         st.stores = st.stores + ((a, n, v, what),)
 
     def val(self, st, cond, o, what='', raw=False):
@@ -270,6 +344,31 @@ class Engine:
                 a = self.val(st, cond, A[1], txt, raw=ring); b = self.val(st, cond, A[2], txt, raw=ring)
                 if op in ('div', 'mod'):
                     self.safety.append((list(cond), f'divisor non-zero: {txt}', b != 0))
+                if op in ('asl', 'or', 'xor', 'and'):
+                    for x in (a, b):
+                        # a value the *preconditions alone* (not the path) bound by 1 is a single bit (bool slots: I-bool)
+                        if not z3.is_int_value(z3.simplify(x)) and isa.maybits(x, c.M - 1) > 1 and \
+                                smt.prove(c.all_pre(), x <= 1, timeout_ms=2000).verdict == smt.PROVED:
+                            isa.set_maybits(x, 1)
+                if op in ('asl', 'asr') and not z3.is_int_value(z3.simplify(b)):
+                    # shift by a run-time amount (bit number of a bool array element): case split over the feasible amounts,
+                    # so that everything downstream works with constant shifts
+                    out = []
+                    rest = list(cond)
+                    for k in range(c.BITS):
+                        ck = cond + [b == k]
+                        if self.sat(ck):
+                            st2 = st.copy()
+                            self.setdest(st2, ck, A[0], isa.arith(op, a, z3.IntVal(k), c.W, c.interpret), txt)
+                            out += self.run(pc + 1, st2, ck, entry=False)
+                        rest.append(b != k)
+                        if k >= 7 and not self.sat(rest):
+                            break
+                    if self.sat(rest):
+                        st2 = st.copy()
+                        self.setdest(st2, rest, A[0], isa.arith(op, a, b, c.W, c.interpret), txt)
+                        out += self.run(pc + 1, st2, rest, entry=False)
+                    return out
                 v = isa.arith(op, a, b, c.W, c.interpret)
                 self.setdest(st, cond, A[0], v, txt)
             elif op == 'mov':
